@@ -1,4 +1,5 @@
 import CalVerif.Lemmas.PtgXlsb
+import CalVerif.Lemmas.PtgPanics
 /-! # C14 — formulas are reported with the A1 text the token stream encodes
 
     Theorems about the model of the two token decoders (`Model/Ptg.lean`: `pushColumn`, `cellRef`,
@@ -197,5 +198,33 @@ example :
     simp [e, toRpn, toRpnArgs] at ht
     rcases ht with rfl | rfl | rfl | rfl | rfl | rfl | rfl | rfl | rfl <;>
       simp [Tok.wf, Tok.sheetOk, CellRef.wf, hl, utf16Units] <;> decide
+
+/-! ## offsets: the stack of string offsets never goes wrong -/
+
+/-- `Inv`: the stack is sorted and every entry is inside the buffer.  Every edit preserves it, and from such a
+    state the ONLY panic an edit can raise is the unchecked `FTAB[iftab]` index: `split_off`, `insert`,
+    `*s -= start` and the `fargs[w0..w1]` slices of both `parse_formula`s can never fail, whatever the token
+    stream (this is also what makes character offsets and Rust's UTF-8 byte offsets interchangeable in the
+    model: every offset used is a former buffer length and the text before it is never edited afterwards) -/
+theorem offsets_never_panic (a : Act) (s : St) (h : Inv s) :
+    (∀ s', applyAct a s = .ok s' → Inv s') ∧ (∀ m, applyAct a s = .panic m → m = "FTAB index") :=
+  applyAct_inv a s h
+
+/-- for ANY byte string, a panic of the xls decoder is one of: an unchecked `rgce[..]` slice (truncated token),
+    `iname - 1` on a zero name index, or an unchecked function-table index — the robustness findings recorded
+    for C06 — and never an offset computation -/
+theorem xls_panics_classified (ctx : Ctx) (rgce : Bytes) (m : String) (h : parseFormulaXls ctx rgce = .panic m) :
+    m = "slice" ∨ m = "iname - 1" ∨ m = "FTAB_ARGC index" ∨ m = "FTAB index" :=
+  parseFormulaXls_panic ctx rgce m h
+
+/-- same for xlsb, whose 3-D arms also index the extern-sheet table unchecked -/
+theorem xlsb_panics_classified (ctx : Ctx) (rgce : Bytes) (m : String) (h : parseFormulaXlsb ctx rgce = .panic m) :
+    m = "slice" ∨ m = "iname - 1" ∨ m = "FTAB_ARGC index" ∨ m = "sheets index" ∨ m = "FTAB index" :=
+  parseFormulaXlsb_panic ctx rgce m h
+
+example : Inv ⟨"A1+B2".toList, [0, 3]⟩ := by
+  constructor
+  · simp
+  · intro x hx; simp at hx; rcases hx with rfl | rfl <;> decide
 
 end C14
